@@ -284,7 +284,7 @@ rt_datagram!(o16_7_roundtrip_datagram_len256, 256, false);
 //@bound one datagram, payload length 1448 (a full fragment), fragment id/last any with id <= last: frame is exactly 1472 bytes
 //@assume crc::compute replaced by an uninterpreted constant function
 rt_datagram!(o16_7_roundtrip_datagram_frag1448, 1448, true);
-//@h props=C16,C04 tier=thorough timeout=600 role=codec-roundtrip
+//@h props=C16,C04 tier=quick timeout=600 role=codec-roundtrip also_quick=C04
 //@fn DataFrameBuilder::{new,add,build,encoded_size,size,count}, read_datagram
 //@bound one datagram, payload length 1 fragmented (last fragment of a multi-fragment packet)
 //@assume crc::compute replaced by an uninterpreted constant function
